@@ -332,44 +332,49 @@ where
 {
     pub fn push<E: Emplacer<T>>(&mut self, emplacer: E) -> Result<&mut T, Error> {
         let offset_size = FlexVec::<T, L>::OFFSET_SIZE;
+        let max_offset = L::max_value().to_usize().unwrap();
 
-        let mut data = &mut self.data;
+        // Position of the slot of the new item.
         let mut pos = 0;
+        // Position of the slot of the current last item and an offset to write there (if it isn't there already).
+        let mut last = None;
 
         loop {
-            let offset = *L::from_bytes(data)?;
-            if offset == L::zero() {
+            let offset = L::from_bytes(&self.data[pos..])?.to_usize().unwrap();
+            if offset == 0 {
                 break;
-            } else if offset == L::max_value() {
-                let (offset_slot, payload) = data.split_at_mut(offset_size);
-                let payload_size = ceil_mul(T::from_bytes(payload)?.size(), Self::ALIGN);
+            } else if offset == max_offset {
+                let payload_size = ceil_mul(T::from_bytes(&self.data[(pos + offset_size)..])?.size(), Self::ALIGN);
                 let last_offset = offset_size + payload_size;
-                pos += last_offset;
-                L::from_usize(last_offset)
+                let sealed = L::from_usize(last_offset)
                     .and_then(|o| if o < L::max_value() { Some(o) } else { None })
                     .ok_or(Error {
                         kind: ErrorKind::InsufficientSize,
                         pos,
-                    })?
-                    .emplace(offset_slot)?;
-                (_, data) = payload.split_at_mut(payload_size);
+                    })?;
+                last = Some((pos, sealed));
+                pos += last_offset;
                 break;
             }
-            let offset = offset.to_usize().unwrap();
             pos += offset;
-            (_, data) = data.split_at_mut(offset);
         }
 
-        if data.len() < offset_size {
+        if self.data.len() < pos + offset_size {
             return Err(Error {
                 kind: ErrorKind::InsufficientSize,
                 pos,
             });
         }
 
-        let (offset_slot, payload) = data.split_at_mut(offset_size);
+        // The new item is placed in unused memory, existing items are modified only after it is successfully emplaced.
+        let (head, tail) = self.data.split_at_mut(pos);
+        let (offset_slot, payload) = tail.split_at_mut(offset_size);
+        let item = emplacer.emplace(payload)?;
         L::max_value().emplace(offset_slot)?;
-        emplacer.emplace(payload)
+        if let Some((last_pos, sealed)) = last {
+            sealed.emplace(&mut head[last_pos..])?;
+        }
+        Ok(item)
     }
     pub fn push_default(&mut self) -> Result<&mut T, Error>
     where
